@@ -320,29 +320,40 @@ def r142(ctx, rep, f, ev, cg, reach):
     rep.floor("R14.2-input-variants", len(ivars), 10, "InputStatType variants")
     rep.floor("R14.2-stat-variants", len(svars), 15, "StatType variants")
     fw = "fastpasta::forward_input_stats_to_stats_collector"
-    recs = [o for o in _recs(ev, fw, [Sym("rx"), Sym("tx")], follow=lambda c: c.startswith("fastpasta::") and c.count("::") == 1) if "call" in o and o["call"].endswith("::send")] if fw in f.fns else []
-    msg = "sym(payload(sym(call:flume::Receiver::<T>::recv(sym(rx))),Ok))"
+    # the forwarder is evaluated once per InputStatType variant: `recv()` is made to yield Ok(V(P)) and the value(s)
+    # sent on are read off — independent of whether each arm sends or one send follows the match
     for v in ivars:
-        mine = [o for o in recs if any(g == "symc(is%s(%s))" % (v, msg) for g in o["guard"])]
-        pay = "sym(payload(%s,%s))" % (msg, v)
+        sent = []
+        if fw in f.fns:
+            ev.call_hooks = [(lambda fn, res: fn.endswith("Receiver::<T>::recv"),
+                              lambda n, a, v=v: Agg("core::result::Result", "Ok", {"0": Agg(IST, v, {"0": Sym("P")})}))]
+            try:
+                recs = _recs(ev, fw, [Sym("rx"), Sym("tx")], follow=lambda c: c.startswith("fastpasta::") and c.count("::") == 1)
+            except Unsupported as e:
+                recs = []
+            finally:
+                ev.call_hooks = []
+            sent = [(o["args"][1], tuple(g for g in o["guard"] if g != "true")) for o in recs if "call" in o and o["call"].endswith("::send") and "false" not in o["guard"]]
+        vals = sorted(x[0] for x in sent)
         if v == "SystemId":
-            names = sorted(o["args"][1].split("(")[0] for o in mine)
-            ok = names == ["StatType::Fatal", "StatType::SystemId"]
-            sid = [o for o in mine if o["args"][1].startswith("StatType::SystemId(")]
-            ok = ok and pay in sid[0]["args"][1] and any("isOk(" in g for g in sid[0]["guard"])
+            ok = len(sent) == 2 and any(x[0].startswith("StatType::SystemId(0=") and "sym(P)" in x[0] and any("isOk(" in g for g in x[1]) for x in sent) \
+                and any(x[0].startswith("StatType::Fatal(") and any("isErr(" in g for g in x[1]) for x in sent)
+            # the conversion is the documented table lookup of the raw id
+            ok = ok and all("from_system_id" in g or "isOk(" in g or "isErr(" in g for x in sent for g in x[1])
+            if not ok and len(sent) == 1 and not sent[0][1]:
+                # one send of a value selected by the same lookup: match from_system_id(P) { Ok(id) => SystemId(id), Err(_) => Fatal(..) }
+                val = sent[0][0]
+                ok = val.startswith("('match',('match',sym(P),") and "StatType::SystemId" in val.replace("fastpasta::stats::", "") and "StatType::Fatal" in val.replace("fastpasta::stats::", "") \
+                    and val.count("StatType::") - val.count("StatType::SystemId") - val.count("StatType::Fatal") == 0
         elif v == "RunTriggerType":
-            ok = len(mine) == 1 and mine[0]["args"][1].startswith("StatType::RunTriggerType(0=(%s,sym(call:alloc::string::String::into_boxed_str(" % pay)
-            tbf = ev.tb(fw)
-            tcalls = [n for _, n in tbf.calls() if (n.get("fn") or "").endswith("trigger_type_string_from_int")]
-            bind = None
-            for a in tbf.arms:
-                if a["pat"]["k"] == "Variant" and a["pat"].get("vname") == "RunTriggerType" and a["pat"].get("subs"):
-                    bind = a["pat"]["subs"][0]["p"].get("id")
-            ok = ok and len(tcalls) == 1 and tbf.e(tcalls[0]["args"][0])[1].get("id") == bind and bind is not None
+            ok = len(sent) == 1 and sent[0][0].startswith("StatType::RunTriggerType(0=(sym(P),sym(call:alloc::string::String::into_boxed_str(") and not sent[0][1]
+            tbs = [ev.tb(fw)] + [ev.tb(q) for q in f.fns if q.startswith("fastpasta::") and q.count("::") == 1 and f.fns[q].get("thir")]
+            tcalls = [n for tb_ in tbs if tb_ is not None for _, n in tb_.calls() if (n.get("fn") or "").endswith("trigger_type_string_from_int")]
+            ok = ok and len(tcalls) >= 1 and "sym(P)" in sent[0][0][len("StatType::RunTriggerType(0=(sym(P),"):]
         else:
-            ok = len(mine) == 1 and mine[0]["args"][1] == "StatType::%s(0=%s)" % (v, pay)
+            ok = sent == [("StatType::%s(0=sym(P))" % v, ())]
         rep.check(ok, "R14.2", "R14.2|forward|%s" % v, "InputStatType::%s is forwarded as StatType::%s with its payload" % (v, v), W,
-                  "InputStatType::%s is forwarded as %s" % (v, [o["args"][1][:160] for o in mine]))
+                  "InputStatType::%s(P) is forwarded as %s" % (v, [(x[0][:120], [g[:60] for g in x[1]]) for x in sent]))
     # StatsCollector::collect
     table = {"RDHSeen": "add_rdhs_seen", "HBFsSeen": "add_hbfs_seen", "PayloadSize": "add_payload_size", "LinksObserved": "record_link", "RdhVersion": "record_rdh_version",
              "FeeId": "record_fee_observed", "RunTriggerType": "record_run_trigger_type", "TriggerType": "record_trigger_type", "SystemId": "record_system_id",
@@ -489,7 +500,7 @@ def r143(ctx, rep, f, ev, cg, reach):
         rep.missing("R14.3", clo)
         return
     ev.watch = lambda c: "flume::Sender" in c or c.endswith("collect_system_specific_stats") or c.endswith("TriggerStats::collect_stats")
-    recs = _recs(ev, clo, [Sym("env")])
+    recs = _recs(ev, clo, [Sym("env")], follow=lambda c: c.startswith("fastpasta::analyze::lib::") and "{closure" not in c)
     it = "sym(payload(sym(call:<core::slice::iter::Iter<'a, T> as core::iter::traits::iterator::Iterator>::next("
     hb = [o for o in recs if "assign" in o and o["assign"][0] == "AddAssign"]
     ok = len(hb) == 1 and hb[0]["assign"][2].startswith("sym(boolcast(Eq(" + it) and hb[0]["assign"][2].endswith(",0x1)))") and "stop_bit" in hb[0]["assign"][2]
@@ -514,7 +525,7 @@ def r143(ctx, rep, f, ev, cg, reach):
     cs = [o for o in recs if "call" in o and o["call"].endswith("collect_system_specific_stats")]
     rep.check(len(cs) == 1 and hb and tuple(cs[0]["guard"]) == tuple(hb[0]["guard"]), "R14.3", "R14.3|system-specific|per-rdh", "system specific statistics are collected for every analysed RDH", W)
     # the loop runs over all RDHs of the batch
-    b = cg.body(clo)
+    b = Body(inline_fn(f, clo, lambda c: c.startswith("fastpasta::analyze::lib::") and "{closure" not in c))
     src = [show_origin(b.origin(t["args"][0])) for bb, t, cal, c in b.calls() if cal and cal.endswith("IntoIterator>::into_iter")]
     chain = [cal.split("::")[-1] for bb, t, cal, c in b.calls() if cal and ("iter::" in cal or "slice::" in cal) and "Iterator>::next" not in cal]
     rep.check(any("rdh_slice" in s and "iter(" in s for s in src) and not any(x in chain for x in ("skip", "take", "step_by", "filter", "rev")), "R14.3", "R14.3|all-rdhs",
